@@ -869,8 +869,9 @@ ComponentPtr flattenComponent(const ComponentEntityPtr &parent, ComponentPtr &co
         // Take a copy of the imported component which will be used to replace the import defined in this model.
         auto importedComponentCopy = importedComponent->clone();
         importedComponentCopy->setName(component->name());
-        for (size_t i = 0; i < component->componentCount(); ++i) {
-            importedComponentCopy->addComponent(component->component(i));
+        // Note: adding a component to another moves it out of its current parent, so always take the first one.
+        while (component->componentCount() > 0) {
+            importedComponentCopy->addComponent(component->component(0));
         }
 
         // Get list of required units from component's variables and math cn elements.
